@@ -57,81 +57,6 @@ func spineLoops(c *Ctx, fd *ast.FuncDecl) []spineLoop {
 	return out
 }
 
-// allLoops returns every for/range statement of fd outside function literals.
-func allLoops(fd *ast.FuncDecl) []ast.Stmt {
-	var out []ast.Stmt
-	inspectNoLit(fd.Body, func(n ast.Node) bool {
-		switch n.(type) {
-		case *ast.RangeStmt, *ast.ForStmt:
-			out = append(out, n.(ast.Stmt))
-		}
-		return true
-	})
-	return out
-}
-
-// loopHasEarlyExit reports a construct that can leave the loop or skip the rest of an iteration:
-// break (belonging to this loop), goto, labelled branch, return, and `continue` of this loop.
-// allowContinue tolerates unlabelled continue.
-func loopEarlyExit(loop ast.Stmt, allowContinue bool) string {
-	var body *ast.BlockStmt
-	switch l := loop.(type) {
-	case *ast.RangeStmt:
-		body = l.Body
-	case *ast.ForStmt:
-		body = l.Body
-	}
-	why := ""
-	var visit func(n ast.Node, inSwitch, inInnerLoop bool)
-	visit = func(n ast.Node, inSwitch, inInnerLoop bool) {
-		ast.Inspect(n, func(m ast.Node) bool {
-			if m == n || why != "" {
-				return why == ""
-			}
-			switch x := m.(type) {
-			case *ast.FuncLit:
-				return false
-			case *ast.ReturnStmt:
-				why = "return inside the loop"
-			case *ast.BranchStmt:
-				switch {
-				case x.Label != nil:
-					why = "labelled " + x.Tok.String()
-				case x.Tok == token.GOTO:
-					why = "goto"
-				case x.Tok == token.BREAK && !inSwitch && !inInnerLoop:
-					why = "break"
-				case x.Tok == token.CONTINUE && !inInnerLoop && !allowContinue:
-					why = "continue"
-				}
-			case *ast.SwitchStmt:
-				if x.Init != nil {
-					visit(x.Init, inSwitch, inInnerLoop)
-				}
-				visit(x.Body, true, inInnerLoop)
-				return false
-			case *ast.TypeSwitchStmt:
-				visit(x.Body, true, inInnerLoop)
-				return false
-			case *ast.SelectStmt:
-				visit(x.Body, true, inInnerLoop)
-				return false
-			case *ast.ForStmt:
-				visit(x.Body, false, true)
-				return false
-			case *ast.RangeStmt:
-				visit(x.Body, false, true)
-				return false
-			}
-			return true
-		})
-	}
-	visit(body, false, false)
-	return why
-}
-
-func loopHasEarlyExit(loop ast.Stmt) string { return loopEarlyExit(loop, false) }
-
 // writesVar reports whether node assigns to / increments the given variable (outside function literals).
 func writesVar(c *Ctx, n ast.Node, v types.Object) bool {
 	found := false
